@@ -15,7 +15,7 @@ Extraction "model.ml"
   iden_prepare quote_char eng_tokens
   rquery rexpr emit_inline emit_params value_to_string tables_of build_select build_insert build_update build_delete
   build_cond build_onconflict into_condition api_between api_not_between api_like api_not_like api_is_in
-  api_is_not_in api_in_tuples api_is_null api_is_not_null api_cast_as api_in_subquery api_exists
+  api_is_not_in api_in_tuples api_is_null api_is_not_null api_cast_as api_cast_as_quoted api_in_subquery api_exists
   to_simple_expr expr_into_condition inject_parameters
   cte_from_select query_plain params_sep inline_sep crate_sep texts_params texts_inline pieces vals_of lex_texts clex_texts
   rddl build_coldef build_index build_fk build_tablecreate build_tablealter build_tabledrop build_indexdrop
